@@ -10,4 +10,8 @@ u, v, f = TrialFunction(V), TestFunction(V), Coefficient(V)
 k = Constant(mesh)
 a = inner(grad(u), grad(v)) * dx + 1j * k * inner(u, v) * dx + conj(f) * inner(u, v) * dx
 L = real(f) * inner(1.0, v) * dx + imag(f) * inner(1.0, v) * dx + abs(f) * inner(1.0, v) * dx + sqrt(f) * inner(2.0 + 3j, v) * dx
-forms = [a, L]
+eps = Constant(mesh)
+a2 = inner(u, v) * dx + inner(eps * grad(u), grad(v)) * dx + inner(f * u, v) * dx
+# first term of the dof block has a purely real (geometric) factor, the later ones a complex one
+a3 = inner(u, v) * dx + inner(eps * grad(u), grad(v)) * dx
+forms = [a, L, a2, a3]
